@@ -382,7 +382,27 @@ def compare(prop, spec, ops, impl, model):
         exact = [e for e in o.expect if not e.startswith("@")]
         special = [e for e in o.expect if e.startswith("@")]
         bad = None
-        # C02: the measured allocation of the real process against the property's budget is an oracle of its own
+        # C02: measured allocation (impl: `alloc <bytes> <len>`) and modelled cost (model: `cost <bytes> <widest>`)
+        if o.line.startswith("allocpkt "):
+            al = [l for l in ib if l.startswith("alloc ")]
+            co = [l for l in mb if l.startswith("cost ")]
+            ib = [l for l in ib if not l.startswith("alloc ")]
+            mb = [l for l in mb if not l.startswith("cost ")]
+            if al and co:
+                alloc, dlen = int(al[0].split()[1]), int(al[0].split()[2])
+                cost, widest = int(co[0].split()[1]), int(co[0].split()[2])
+                budget = 16 * 2 ** 20 + 256 * dlen * (1 + widest)
+                if alloc > budget:
+                    failures.append(dict(kind="oracle", idx=i, op=o.line, tag=o.tag,
+                                         detail="allocation %d of this %d-byte datagram exceeds 16 MiB + 256 x length x (1 + %d fields of the widest template it references) = %d" % (alloc, dlen, widest, budget)))
+                    continue
+                if dlen <= 16000 and cost > budget:
+                    failures.append(dict(kind="harness", idx=i, op=o.line, tag=o.tag, detail="modelled cost %d above the budget %d: contradicts cost_within_budget" % (cost, budget)))
+                    continue
+                if alloc > 2 * cost + 65536:
+                    failures.append(dict(kind="correspondence", idx=i, op=o.line, tag=o.tag,
+                                         detail="measured allocation %d is not covered by the cost model (%d): an allocation site is missing from Goflow/Cost.lean or allocates more than modelled" % (alloc, cost)))
+                    continue
         if o.line.startswith("allocpkt ") and ib and " budget=" in ib[0] and not ib[0].endswith("budget=ok"):
             failures.append(dict(kind="oracle", idx=i, op=o.line, tag=o.tag,
                                  detail="allocation of this datagram exceeds 16 MiB + 256 x length x (1 + widest template): %s" % ib[0].split(" budget=")[1]))
